@@ -11,6 +11,10 @@ def run(ctx):
     model(ctx, WRONG)
     # semantic failures, read-only calls, aux preservation, other users untouched: every Store edge
     storefam.run_family(ctx, seeds=[ctx.seed] if not thorough else [ctx.seed, ctx.seed + 1])
+    # one long-lived library object: simulated histories (records with auxiliary data put there by the environment)
+    # and every short history of the core operations
+    storefam.histories(ctx, 300 if not thorough else 3000)
+    storefam.short_histories(ctx)
     # every single system-call failure in every operation
     drv = fsfam.Driver(ctx)
     cases = fsfam.standard_cases(thorough)
